@@ -29,6 +29,7 @@ def native_namespace(task):
     ns.update(vars(M))
     ns.update({k: getattr(rt, k) for k in rt.SPEC_NAMES})
     ns['_mk'] = rt._mk
+    ns['Struct'] = rt.Struct
     ns['math'] = math
     try:
         import contracts.specfn as sf
